@@ -149,3 +149,113 @@ def scratch_extent_rule(chk, cid, prog, cfgname, floor=24):
     if n < floor:
         raise AnalysisBroken('%s: only %d array arguments of the relaxed-supernode search found (floor %d)' % (cid, n, floor))
     return n
+
+
+def outparam_on_status_rule(chk, cid, prog, cfgname, callees=None, floor=8):
+    """`if ( (*info = ilu_?pivotL(.., &pivrow, ..)) ) { ...; marker[pivrow] = kcol; }`: the caller indexes an array with the variable it lent to the
+    callee, on the branch where the callee returned a non-zero status.  Then every path of the callee to a non-zero return must have stored
+    through that parameter; a return that leaves it alone hands the caller whatever the variable held before (the remembered row of another
+    history, the previous column's pivot, or nothing at all on the first column) as an array index.  Must-assigned dataflow over the
+    callee's CFG, one instance per (call site, non-zero return)."""
+    chk.clause(cid, 'a lent variable that the caller indexes with after a non-zero status is stored on every path to that status')
+    n = 0
+    callees = callees or [q + p + 'pivotL' for q in ('', 'ilu_') for p in 'sdcz']
+    for f in prog.all_funcs():
+        if not f.unit.startswith('SRC/'):
+            continue
+        for ifn in f.body.walk():
+            if ifn.k != 'If':
+                continue
+            call = None
+            for x in ifn.c[0].walk():
+                if x.k == 'Call' and callee_name(x) in callees:
+                    call = x
+            if call is None:
+                continue
+            tgt = prog.resolve(callee_name(call), f.unit)
+            if tgt is None:
+                raise AnalysisBroken('%s: %s not resolved' % (cid, callee_name(call)))
+            for ai, a in enumerate(call.c[1:]):
+                a = strip(a)
+                if not (a.k == 'Unary' and a.a['op'] == '&' and strip(a.c[0]).k == 'Ref'):
+                    continue
+                vid = strip(a.c[0]).a.get('id')
+                vname = strip(a.c[0]).a.get('name')
+                # is it used as a subscript in the non-zero branch before being reassigned?
+                use = None
+                for x in ifn.c[1].walk():
+                    if x.k == 'Index' and any(y.k == 'Ref' and y.a.get('id') == vid for y in x.c[1].walk()):
+                        use = x
+                        break
+                if use is None:
+                    continue
+                pid = tgt.params[ai][1]
+                cfg = prog.cfg(tgt)
+                # state: set of (stored through the parameter?, returned status variable known to be 0?) pairs - one per class of paths,
+                # so that "info = 0 on the branch that keeps the caller's row" and "info = jcol+1 on the branch that stores" stay apart
+                retvars = {strip(x.c[0]).a.get('id') for x in tgt.body.walk() if x.k == 'Return' and x.c and strip(x.c[0]).k == 'Ref'}
+
+                def step(node, st):
+                    out = set()
+                    for (asg, zero) in st:
+                        if node.ast is not None and node.kind in ('stmt', 'cond', 'return', 'switch'):
+                            for x in node.ast.walk():
+                                if x.k == 'Assign':
+                                    l = strip(x.c[0])
+                                    if l.k == 'Unary' and l.a['op'] == '*' and strip(l.c[0]).k == 'Ref' and strip(l.c[0]).a.get('id') == pid:
+                                        asg = True
+                                    if l.k == 'Ref' and l.a.get('id') in retvars:
+                                        zero = (x.a['op'] == '=' and const_value(x.c[1]) == 0)
+                        out.add((asg, zero))
+                    return frozenset(out)
+
+                IN = {cfg.entry.id: frozenset([(False, False)])}
+                work = [cfg.entry.id]
+                while work:
+                    nid = work.pop()
+                    node = cfg.nodes[nid]
+                    st = step(node, IN[nid])
+                    for (s_, lab) in node.succ:
+                        if s_ not in IN:
+                            IN[s_] = st
+                            work.append(s_)
+                        elif not st <= IN[s_]:
+                            IN[s_] = IN[s_] | st
+                            work.append(s_)
+                rets = {}
+                for node in cfg.nodes:
+                    if node.kind != 'return' or node.id not in IN or not node.ast.c:
+                        continue
+                    if const_value(node.ast.c[0]) == 0:
+                        continue
+                    st = step(node, IN[node.id])
+                    isvar = strip(node.ast.c[0]).k == 'Ref' and strip(node.ast.c[0]).a.get('id') in retvars
+                    live = [(asg, zero) for (asg, zero) in st if not (isvar and zero)]
+                    if not live:
+                        continue
+                    rets[node.id] = all(asg for (asg, zero) in live)
+                if not rets:
+                    raise AnalysisBroken('%s: %s has no non-zero return' % (cid, tgt.name))
+                def guard_of(r):
+                    best = None
+                    for x in tgt.body.walk():
+                        if x.k == 'If' and any(y is r for y in x.walk()):
+                            best = x        # walk is pre-order: the last match is the innermost
+                    return canon(best.c[0], ids=False).replace(' ', '') if best is not None else 'unconditional'
+                for nid, okk in sorted(rets.items(), key=lambda kv: cfg.nodes[kv[0]].ast.line):
+                    r = cfg.nodes[nid].ast
+                    tag = guard_of(r)
+                    n += 1
+                    chk.saw(unit=f.unit, func=f.unit + ':' + f.name)
+                    inst = '%s:%s->%s:%s@%s' % (f.name, vname, tgt.name, tgt.params[ai][0], tag)
+                    if okk:
+                        chk.ok(cid, inst, sample='`%s` at %s:%d is reached only after a store through %s' % (pretty(r)[:30], tgt.unit, r.line, tgt.params[ai][0]))
+                    else:
+                        chk.violate(cid, '%s:%s:unset-on-status:%s:%s@%s' % (f.name, vname, tgt.name, tgt.params[ai][0], tag),
+                                    loc(tgt, r), tgt.name,
+                                    '%s can reach `%s` (line %d) without storing through `%s`; its caller %s then executes `%s` (line %d) with whatever `%s` held '
+                                    'before the call: an array index that no one chose (out-of-range write when it is stale or uninitialised)'
+                                    % (tgt.name, pretty(r)[:30], r.line, tgt.params[ai][0], f.name, pretty(use)[:40], use.line, vname), cfgname=cfgname)
+    if n < floor:
+        raise AnalysisBroken('%s: only %d (call site, status return) pairs found (floor %d)' % (cid, n, floor))
+    return n
